@@ -263,6 +263,10 @@ def small_specs():
         S([('msg', H_BOTH, 'whole', 'pre')], wfail=(0, 0)),                                        # write refused
         S([('msg', H_BOTH, 'whole', 'pre')], wfail=(0, 7), probe_after_failure=True),              # short write, then refused
         S([('msg', H_BOTH, 'whole', 'pre'), ('msg', H_10, 'whole', 'free')], later=1),             # two hellos
+        S([('msg', H_BOTH, 'bytewise_delim', 'free')], ready={'mode': 'after_dispatch'}),          # delimiter arriving octet by octet
+        S([('msg', H_BOTH, 'whole', 'pre')], ready={'mode': 'after_return'}, eager=True),          # F15 order with the deadline racing
+        S([('msg', ('foreign',), 'whole', 'pre'), ('msg', ('nonxml',), 'whole', 'free'), ('msg', H_XMLNS, 'in_xml', 'free')], profile='nexus'),
+        S([('raw', b'garbage without delimiter '.hex(), 'pre'), ('msg', H_BOTH, 'whole', 'free')]), # the hello runs into the garbage: timeout
     ]
 
 def gen_spec(rng):
